@@ -10,7 +10,7 @@ Definition all_ok (rs : list result) : bool := forallb is_ok rs.
 (* (1) a group reachable through two paths: children listed only under the first path visited *)
 Definition h_group_hardlink : list op := [MkGroup (b "/g"); MkGroup (b "/g/x"); HardLink (b "/h") (b "/g")].
 Lemma group_hardlink_refuted :
-  names_ok h_group_hardlink = true /\ all_ok (snd (go h_group_hardlink)) = true /\ all_ok (snd (sp h_group_hardlink)) = true /\
+  names_ok go_cfg h_group_hardlink = true /\ all_ok (snd (go h_group_hardlink)) = true /\ all_ok (snd (sp h_group_hardlink)) = true /\
   read_tree (fst (go h_group_hardlink)) <> spec_tree (fst (sp h_group_hardlink)) /\
   read_tree (fst (go h_group_hardlink)) =
     Some (TNode 0 KGroup [(b "g", TNode 1 KGroup [(b "x", TNode 2 KGroup [])]); (b "h", TNode 1 KGroup [])]).
@@ -75,3 +75,20 @@ Proof.
   intros [_ H]. specialize (H 1). assert (X : 1 < clock (fst (go h_rollback))) by (vm_compute; reflexivity).
   specialize (H X). vm_compute in H. discriminate.
 Qed.
+
+(* ---------------------------------------------------------------- with the three candidate repairs switched on *)
+Definition fixed_cfg : cfg := {| heap_cap := 256; snod_cap := 32; soft_max := 244;
+                                 strict_names := true; canon_group_key := true; rc_rollback_fix := true |}.
+Definition gof (h : list op) := run (step fixed_cfg) (init fixed_cfg) h.
+
+Lemma repairs_remove_witnesses :
+  snd (gof h_empty_name) = [Err EInvalidPath; Ok] /\ snd (gof h_dataset_root) = [Err EInvalidPath; Ok] /\
+  snd (gof h_nul_name) = [Ok; Err EInvalidPath] /\
+  snd (gof h_trailing_slash) = [Ok; Ok; Err ENoParent] /\
+  (let w := fst (gof h_rollback) in
+   option_map refcount (alookup 1 (objects (fst (step_body fixed_cfg w o_rollback)))) = Some 1).
+Proof. vm_compute. repeat split; reflexivity. Qed.
+
+Lemma no_dup_repaired : forall c h g names, strict_names c = true -> group_names (reach c h) g = Some names ->
+  NoDup names /\ Forall (fun x => x <> None) names.
+Proof. intros c h g names S. apply no_dup_reach. unfold names_ok. rewrite S. reflexivity. Qed.
